@@ -401,16 +401,6 @@ Definition nth_reply (s : scn) (i : nat) : option (Z * bytes) :=
   end.
 Definition first_reply (s : scn) : option (Z * bytes) := nth_reply s 0.
 
-Definition run_with (judge : scn -> sexp) (line : list Z) : list Z :=
-  match parse_sexp line with
-  | Some sx =>
-    match dec_scn sx with
-    | Some s => print_sexp (judge s)
-    | None => print_sexp (L [sym "badcase"; sym "decode"])
-    end
-  | None => print_sexp (L [sym "badcase"; sym "parse"])
-  end.
-
 (* ---------- the spec's view of connection i: protocol mode by the reply class of what the
    panel sends first, the timed bytes after that first segment (relative to accept), the
    instant at which the scenario cuts the connection (cancellation), and whether the reply
@@ -463,4 +453,46 @@ Fixpoint for_conns {A} (f : nat -> grp -> option A) (i : nat) (gs : list grp) : 
   match gs with
   | [] => None
   | g :: r => match f i g with Some x => Some x | None => for_conns f (Datatypes.S i) r end
+  end.
+
+(* Environment assumption of the probe phase: the single conn.Read returns what the FIRST
+   segment holds.  When the client process is scheduled so late that its read completes only
+   after the peer has already sent the second segment, both are returned at once and the
+   classification legitimately differs.  This is visible in the trace (the connect callback of
+   that connection comes after the second segment's send time, and its binary flag differs from
+   the reply class of the first segment): such a run is outside the model's environment and is
+   reported as a timing-class disagreement, i.e. re-run alone before it counts. *)
+Definition second_seg_time (sc : script) : option Z :=
+  (fix go (l : script) (seen : bool) : option Z :=
+     match l with
+     | Seg t (_ :: _) :: r => if seen then Some t else go r true
+     | Seg _ [] :: r => go r seen
+     | _ => None
+     end) sc false.
+
+Definition late_negotiation (s : scn) : bool :=
+  let accs := obs_accs (s_obs s) in
+  let gs := obs_groups (s_obs s) in
+  (fix go (i : nat) (gs : list grp) : bool :=
+     match gs with
+     | [] => false
+     | g :: r =>
+       (match conn_view s i, nth_error accs i, nth_error (s_conns s) i with
+        | Some v, Some acc, Some c =>
+          match second_seg_time (script_of c) with
+          | Some t2 => negb (Bool.eqb (cv_bin v) (snd (g_con g))) && (acc + t2 - 10 <=? fst (fst (g_con g))) && (t2 <? 2000)
+          | None => false
+          end
+        | _, _, _ => false
+        end) || go (Datatypes.S i) r
+     end) O gs.
+
+Definition run_with (judge : scn -> sexp) (line : list Z) : list Z :=
+  match parse_sexp line with
+  | Some sx =>
+    match dec_scn sx with
+    | Some s => print_sexp (if negb (s_det s) && late_negotiation s then mism "timing" "negotiation-read-late" [] else judge s)
+    | None => print_sexp (L [sym "badcase"; sym "decode"])
+    end
+  | None => print_sexp (L [sym "badcase"; sym "parse"])
   end.
